@@ -11,6 +11,7 @@ package c11old
 import (
 	"context"
 	"fmt"
+	"runtime"
 	"sync"
 	"testing"
 	"time"
@@ -36,6 +37,9 @@ type Plan struct {
 	// Slow: items at which the BatchFunc predicate takes 2 x maxWait (user code runs in Batch's own
 	// goroutine, so its timer can fire while nobody is selecting on it)
 	Slow []int `json:"slow,omitempty"`
+	// Goexit: after its items the source ends the goroutine that called it (one of Batch's) with runtime.Goexit
+	// instead of reporting the end: what has been read is still delivered, and Close returns
+	Goexit bool `json:"goexit,omitempty"`
 }
 
 func genPlan(t *rapid.T) Plan {
@@ -79,6 +83,7 @@ func genPlan(t *rapid.T) Plan {
 	if rapid.IntRange(0, 4).Draw(t, "closeearly") == 0 {
 		p.CloseAt = rapid.IntRange(0, n).Draw(t, "closeat")
 	}
+	p.Goexit = rapid.IntRange(0, 5).Draw(t, "goexit") == 0
 	return p
 }
 
@@ -90,6 +95,7 @@ type source struct {
 	endAt  time.Time
 	ended  bool
 	closes int
+	goexit bool
 }
 
 func (s *source) Next(ctx context.Context) (int, error) {
@@ -102,6 +108,9 @@ func (s *source) Next(ctx context.Context) (int, error) {
 			s.ended, s.endAt = true, time.Now()
 		}
 		s.mu.Unlock()
+		if s.goexit {
+			runtime.Goexit()
+		}
 		return 0, stream.End
 	}
 	if d := s.gaps[pos]; d > 0 {
@@ -126,7 +135,7 @@ func us(n int) time.Duration { return time.Duration(n) * time.Microsecond }
 
 func run(p Plan) (vk.Outcome, error) {
 	var out vk.Outcome
-	src := &source{}
+	src := &source{goexit: p.Goexit}
 	for _, g := range p.GapsUs {
 		src.gaps = append(src.gaps, us(g))
 	}
